@@ -3,7 +3,7 @@ conversions and who-may-call are emitted by locks.py / mcs.py while they walk th
 from facts import AnalysisBroken
 from pathsim import S, C, show, is_const
 from witness import run_witness
-from locks import short, NS
+from locks import short, NS, pointee
 
 OWNING = ('SGuard', 'SIXGuard', 'XGuard', 'CompositeGuard')
 
@@ -76,6 +76,23 @@ def one_guard(fx, eng, rep, m, g):
     rel_key = m.release[g]
     rel_fn = fx.functions[rel_key] if rel_key is not None else None
 
+    # ---- special members of an owning guard are user-provided: a defaulted (member-wise) move leaves the source owning,
+    # a defaulted destructor releases nothing, a defaulted / implicit copy duplicates the grant
+    for mth in rec.get('methods', []):
+        k = mth.get('kind')
+        where = '%s:%s' % (rec['file'], mth.get('line') or rec['line'])
+        if k in ('move_ctor', 'move_assign', 'dtor') and not mth.get('deleted'):
+            rep.check(not mth.get('defaulted') and not mth.get('implicit'), 'C07.CTOR' if k == 'move_ctor' else 'C07.ASSIGN' if k == 'move_assign' else 'C07.DTOR',
+                      '%s %s is user-provided' % (sname, k), where, 'hand-written',
+                      'a defaulted %s of an owning guard: member-wise %s' % (k, 'move leaves the source owning the same grant (released twice)' if k != 'dtor' else 'destruction releases nothing'))
+        if k in ('copy_ctor', 'copy_assign'):
+            rep.check(bool(mth.get('deleted')), 'C07.TYPE', '%s %s is deleted' % (sname, k), where, 'deleted', 'an owning guard can be copied: the grant has two owners')
+    kinds = {mth.get('kind') for mth in rec.get('methods', [])}
+    for need in ('move_ctor', 'move_assign', 'dtor'):
+        if need not in kinds:
+            rep.violation('C07.CTOR' if need == 'move_ctor' else 'C07.ASSIGN' if need == 'move_assign' else 'C07.DTOR', '%s declares no %s' % (sname, need),
+                          '%s:%s' % (rec['file'], rec['line']), 'an owning guard needs a hand-written %s' % need)
+
     # ---- G.CTOR: default state owns nothing
     fo = next(f for f in rec['fields'] if f['name'] == own)
     d = field_default(fo)
@@ -115,7 +132,7 @@ def one_guard(fx, eng, rep, m, g):
             v = fxs['fields'].get(own)
             pv = fxs['fields'].get(ptr)
             ptr_param = [q for q in fxs['params'] if q[1].startswith('p:')]
-            lockp = [S('p:' + q['name']) for q in f['params'] if q.get('isptr') and q['type']['ct'].rstrip(' *') == m.rec_name]
+            lockp = [S('p:' + q['name']) for q in f['params'] if q.get('isptr') and pointee(q['type']['ct']) == m.rec_name]
             ok_ptr = bool(lockp) and pv == lockp[0]
             if own == ptr:
                 rep.check(ok_ptr, 'C07.CTOR', '%s(%s) owns its argument' % (sname, ', '.join(q['type']['t'] for q in f['params'])), loc,
